@@ -141,10 +141,23 @@ class C09(Check):
                 self.violated("P2", PAR, "parallelise", "parallel-order", fn, "parallel results are not appended in input order")
         rets = [r for r in walk_no_nested(fn) if isinstance(r, ast.Return) and r.value is not None]
         rebound = [n for n in walk_no_nested(fn) if isinstance(n, (ast.Assign, ast.AugAssign)) and "inputs" in [norm(t) for t in (n.targets if isinstance(n, ast.Assign) else [n.target])]]
-        if rets and all(norm(r.value) == "results" for r in rets) and not rebound:
+        def plain_result(r) -> bool:
+            t_ = norm(r.value)
+            if t_ == "results":
+                return True
+            # the sequential form returned directly: list([tqdm(]map(worker, inputs)[, ..)])
+            v_ = r.value
+            if isinstance(v_, ast.Call) and norm(v_.func) == "list" and len(v_.args) == 1:
+                inner_ = v_.args[0]
+                if isinstance(inner_, ast.Call) and norm(inner_.func) == "tqdm" and inner_.args:
+                    inner_ = inner_.args[0]
+                return isinstance(inner_, ast.Call) and norm(inner_.func) == "map" and len(inner_.args) == 2 and norm(inner_.args[1]) == "inputs"
+            return False
+
+        if rets and all(plain_result(r) for r in rets) and not rebound:
             self.holds("P2", PAR, "parallelise", "returns-consumption-list", rets[-1], "every return hands back `results` itself; `inputs` is never filtered or rebound")
         else:
-            bad = rebound[0] if rebound else [r for r in rets if norm(r.value) != "results"][0]
+            bad = rebound[0] if rebound else [r for r in rets if not plain_result(r)][0]
             self.violated("P2", PAR, "parallelise", "returns-consumption-list", bad,
                           f"`{norm(bad)[:70]}`: the returned list is no longer exactly the per-input results in input order (inputs filtered / lists concatenated)",
                           witness="a scan re-run on a partially filled cache (keys 2 and 4 of 1..4 cached): values are attached to the wrong scan rows")
